@@ -23,8 +23,11 @@ def canon(x):
 
 def main():
     scenario, dynamic, seed, episodes = sys.argv[1], sys.argv[2] == "1", int(sys.argv[3]), int(sys.argv[4])
-    cfg = nsgenv.base_config(scenario, use_dynamic_addresses=dynamic, required_players=4)
-    cfg["coordinator"]["agents"]["Attacker"]["max_steps"] = 6
+    # global defender on: attackers repeat one scan, so that many detection draws are made (the draws must come from the seeded stream)
+    defender = len(sys.argv) > 5 and sys.argv[5] == "1"
+    nsteps = 14 if defender else 6
+    cfg = nsgenv.base_config(scenario, use_dynamic_addresses=dynamic, required_players=4, use_global_defender=defender)
+    cfg["coordinator"]["agents"]["Attacker"]["max_steps"] = nsteps
     cfg["coordinator"]["agents"]["Attacker"]["start_position"]["controlled_hosts"] = ["random"]
     cfg["coordinator"]["agents"]["Attacker"]["goal"]["known_data"] = {}
     cfg["coordinator"]["agents"]["Attacker"]["goal"]["known_hosts"] = ["1.1.1.1"]
@@ -69,14 +72,17 @@ def main():
     exchange(b, nsgenv.join("dora", "Defender"))
     drain()
     for ep in range(episodes):
-        for step in range(6):
+        for step in range(nsteps):
             for who, a in enumerate(attackers):
                 st = g._agent_states[a]
                 ctrl = sorted(str(h) for h in st.controlled_hosts)
                 known = sorted(str(h) for h in st.known_hosts)
                 nets = sorted((n.ip, n.mask) for n in st.known_networks)
                 k = ep + step + who
-                if k % 3 == 0 and nets:
+                if defender and nets:
+                    n = nets[who % len(nets)]
+                    exchange(a, msg("ScanNetwork", source_host=ip(ctrl[0]), target_network={"ip": n[0], "mask": n[1]}))
+                elif k % 3 == 0 and nets:
                     n = nets[k % len(nets)]
                     exchange(a, msg("ScanNetwork", source_host=ip(ctrl[0]), target_network={"ip": n[0], "mask": n[1]}))
                 elif k % 3 == 1:
